@@ -34,6 +34,8 @@ def model_steps(cands, schedule):
         steps.append(f"d{idx[c]}")
     done = set()
     main = False
+    if "cb" in schedule:
+        return len(uniq), None, idx   # the winner's status callback is held: which select case the caller takes is not determined
     for n, s in enumerate(schedule):
         if s == "cancel":
             # the caller's context is cancelled; ProbeAndDial returns at once unless the caller is parked (then its select has
@@ -100,6 +102,9 @@ def run(ctx):
             specs.append({"cands": cs, "schedule": [live[0], "cancel", "premain"] + live[1:], "mode": "observe"})
         if len(live) > 1:
             specs.append({"cands": cs, "schedule": [live[1], "cancel", "premain", live[0]], "mode": "observe"})
+        # the caller gives up while the winning dial is inside its status callback (between its claim and whatever it does next)
+        for _ in range(3 if not thorough else 8):
+            specs.append({"cands": cs, "schedule": [live[0], "cancel", "cb"] + live[1:], "mode": "observe"})
     # the listener completes the loser first (the winner's path is delayed towards the listener)
     for d in ([60, 150] if not thorough else [30, 60, 150, 300]):
         specs.append({"cands": ["R", "B"], "schedule": ["R", "main", "B"], "relay_delay_ms": d, "mode": "observe"})
